@@ -42,7 +42,56 @@ NAMEABLES_LOAD = [
     "Cls(x.c1, v=y.c2)", "undefined_name.attr", "lam(p.lm)", "os.path.join(p.j1)", "pjoin(p.j2)", "p.a[0].b()",
     "getattr(p, n)", "setattr(p, 'sa', v.w)", "delattr(p, 'da')", "f(*rest)", "f(**d)", "f(k=a.kw)", "p.m()()",
     "Cls.smeth(o.sm)", "x.y.z.w()", "NT(1, 2)", "GLOBAL_NAME", "pi", "len(x.ln)",
+    # boundary spellings of the names the analyser special-cases
+    "to_namedtuple(x.nt)", "os.as_namedtuple(y.nt2)", "g(getattr(p, 'b').items(y, 'd'))", "f(normalise(a.left))",
+    "namedtuple_like(x.n3)", "xgetattr(p, 'b')", "p.getattr(q, 'c')", "defaultdict(p.factory)", "sorted(x.items2)",
 ]
+
+# multi-statement shapes: two cooperating statements (repeated calls, binding then use, deletion then use)
+INTERPLAY = [
+    "emit(normalise(a.left))\nemit(normalise(b.right))", "f(g(x.one))\nf(g(y.two))", "f(g(x.one), k=1)\nf(g(y.two), k=1)",
+    "t = Cls(x.c1)\nu = Cls(y.c2)", "return Cls(x.r1), Cls(y.r2)",
+    "del (x, y)\nx.after\ny.after2", "del [x, y]\nx.after", "del x, y\nx.after", "del (x, (y, z))\nz.after",
+    "[p for p in x.src]\np.after_comp", "t = 1\n[t for t in x.src]\nt.after_comp",
+    "{k: v for k, v in x.items()}\nk.after\nv.after", "(q for q in x.gen)\nq.after_gen",
+    "for t in x:\n    pass\nt.after_loop", "with x as (t, u):\n    pass\nu.after_with",
+    "t = x.a\nt = y.b\nt.c", "x.a = 1\nx.a.b", "t = x\ndel t\nt.gone", "t = x\ndel t\nt = y\nt.back",
+    "def inner(w):\n    return w.iw\ninner(x.arg)", "t = lambda w: w.lw\nt(x.arg)",
+    "if x:\n    t = 1\nt.maybe", "try:\n    t = x.a\nexcept KeyError:\n    t = None\nt.b",
+    "x.m(y.a).n(z.b)\nx.m(y.c).n(z.d)", "p[i.j].k = q[i.j].k", "p.a, p.b = q.b, q.a",
+]
+
+# a second module environment: local callables that reuse the names of plugin-analysed builtins
+PRELUDE_LOCAL = '''\
+import os
+import collections
+
+class Cls:
+    def __init__(self, u, v=None):
+        self.u = u
+
+    @staticmethod
+    def smeth(w):
+        return w.sattr
+
+class Plain:
+    kind = 1
+
+def helper(h, *rest, **kw):
+    return h.hattr
+
+def defaultdict(spec):
+    return spec.local_dd
+
+def pjoin(a):
+    return a.local_join
+
+lam = lambda z: z.lattr
+NT = collections.namedtuple("NT", ["na", "nb"])
+GLOBAL_NAME = 3
+pi = 3
+'''
+PRELUDE_FROM = PRELUDE.replace("import collections\n", "import collections\nfrom collections import defaultdict\n")
 
 STMT_POS = [
     "{E}", "t1 = {E}", "t2: int = {E}", "y += {E}", "return {E}", "if {E}:\n    pass", "while {E}:\n    break",
@@ -117,6 +166,7 @@ def catalogue(depth: int, rng: random.Random, cap: int | None):
         for t in TARGETS:
             bodies.append(sp.replace("{T}", t).replace("{T0}", "t"))
     bodies += UNSUPPORTED
+    bodies += INTERPLAY
     for u in UNSUPPORTED:
         for e in NAMEABLES_LOAD[:6]:
             bodies.append(f"{u}\nafter = {e}")
@@ -142,6 +192,11 @@ def random_body(rng: random.Random) -> str:
         else:
             lines.append(rng.choice(UNSUPPORTED))
     return "\n".join(lines)
+
+
+def prelude_for(module_index: int) -> str:
+    """Module environments alternate so that process-level state leaking between modules is exercised."""
+    return (PRELUDE, PRELUDE_FROM, PRELUDE_LOCAL)[module_index % 3]
 
 
 def modules(bodies: list[str], per_module: int = 25):
